@@ -509,8 +509,11 @@ func baseUnpack(L *LState) int {
 }
 
 func baseXPCall(L *LState) int {
-	fn := L.CheckFunction(1)
+	// Lua 5.1 luaB_xpcall does not type-check its first argument: it is called inside the protected
+	// call, so a callable table is called through __call and a non-callable value is an error that
+	// the handler receives
 	errfunc := L.CheckFunction(2)
+	fn := L.Get(1)
 
 	top := L.GetTop()
 	L.Push(fn)
